@@ -399,6 +399,12 @@ def build_qt(case, mdl, reverse=False, c_sys=None):
                 sched.append([("state", k), ("gate", 0), ("povm", j)])
             else:
                 sched.append([("state", k), ("mprocess", 0), ("povm", j)])
+    from harness import reps
+
+    if isinstance(sched, list):  # the custom schedule list as list or tuple (of lists or tuples)
+        inner = reps.pick(("inner", repr(sched)[:200]), 2)
+        sched = reps.seq([tuple(x) if inner else list(x) for x in sched], "sched")
+    flag = reps.flag(flag, tomo + case["shape"])
     if tomo == "qst":
         qt = StandardQst(povms, on_para_eq_constraint=flag, schedules=sched)
     elif tomo == "povmt":
